@@ -25,6 +25,7 @@
 Can't be used as is, has to be subclassed to add specific read functions.
 """
 import datetime
+import gzip
 import logging
 import os
 import re
@@ -328,7 +329,7 @@ class Reader(ABC):
             archive_header, header = cls.read_header(
                 filename, fileobj=fileobj)
             result = True
-        except (ReaderError, ValueError, EOFError, zlib.error) as exception:
+        except (ReaderError, ValueError, EOFError, zlib.error, gzip.BadGzipFile) as exception:
             LOG.debug("%s failed to read the file! %s"
                       % (cls.__name__, repr(exception)))
             result = False
